@@ -22,7 +22,7 @@ ROOT = os.path.dirname(HERE)
 sys.path.insert(0, ROOT)
 
 from vx import gen, run  # noqa: E402
-from vx.rsparse import ExtractError, extract_fn  # noqa: E402
+from vx.rsparse import ExtractError, GuardEscape, extract_fn, mask  # noqa: E402
 
 REPO = os.environ.get("VERIF_REPO", "/repo")
 BUILD = os.path.join(ROOT, "build")
@@ -75,6 +75,10 @@ def verify_unit(uname, fl, seed=None, rlimit=None, vacuity=True):
     try:
         g, path = build_one(uname, fl)
         gv, pathv = (build_one(uname, fl, vacuity=True) if vacuity else (None, None))
+    except GuardEscape as e:
+        out["error"] = "extraction: %s" % e
+        out["guard_escape"] = e.fid
+        return out
     except ExtractError as e:
         out["error"] = "extraction: %s" % e
         return out
@@ -238,7 +242,12 @@ def decide(prop, tier, seed):
     for (uname, fl), u in sorted(results.items()):
         key = "%s/%s" % (uname, fl)
         if u["error"]:
-            undecided.append("%s: %s" % (key, u["error"]))
+            if u.get("guard_escape") and prop in ("C20", "C03"):
+                violations.append(dict(obligation="%s/%s" % (key, u["guard_escape"]), clause="R4b guard-escape: " + u["error"], fn=None,
+                                       diags=[dict(rendered=u["error"], message="guard escape")], changed=[u["guard_escape"]], path="", unit=uname, flavour=fl, hints_lost=[]))
+                obligations += 1
+            else:
+                undecided.append("%s: %s" % (key, u["error"]))
             continue
         smt_ms += u["res"].get("smt_ms") or 0
         g = u["gen"]
@@ -256,7 +265,7 @@ def decide(prop, tier, seed):
         changed_in_unit = [f["id"] for f in g.fns if base["functions"].get("%s/%s" % (key, f["id"])) != f["hash"]]
         for fid, o in sorted(u["obligations"].items()):
             f = ext.get(fid)
-            serves = (f is None) or (prop in f["props"])
+            serves = (f is None) or (prop in f["props"]) or prop == "C15"
             if not serves:
                 continue
             obligations += 1
@@ -301,13 +310,94 @@ def decide(prop, tier, seed):
                     undecided.append("%s/%s: unstable: fails with random_seed=%d rlimit=5" % (key, fid, s))
         # samples
         for f in g.fns:
-            if prop in f["props"] and len(samples) < 3:
+            if (prop in f["props"] or prop == "C15") and len(samples) < 3:
                 txt = "\n".join(g.lines[f["gen_start"] - 1:f["gen_end"]])
                 samples.append(dict(obligation="%s/%s" % (key, f["id"]), generated_text=txt[:6000]))
-    return dict(prop=prop, tier=tier, seed=seed, results=results, undecided=undecided, violations=violations,
+    extra = {}
+    if prop == "C20":
+        sc = scan_c20()
+        extra["guard_scan"] = sc["report"]
+        for o in sc["obligations"]:
+            obligations += 1
+            if o["ok"]:
+                discharged += 1
+            else:
+                violations.append(dict(obligation=o["id"], clause="R4b scan: " + o["why"], fn=None, diags=[dict(rendered=o["why"], message=o["why"])],
+                                       changed=[o["id"]], path="", unit="scan", flavour=o["flavour"], hints_lost=[]))
+            fn_report.append(dict(obligation=o["id"], kind="syntactic R4b scan", ok=o["ok"], ms=0, rlimit=0))
+    if prop == "C15":
+        extra["twin_comparison"] = twin_table(results)
+    return dict(prop=prop, tier=tier, seed=seed, extra=extra, results=results, undecided=undecided, violations=violations,
                 known_hits=known_hits, obligations=obligations, discharged=discharged, fn_report=fn_report,
                 samples=samples, smt_ms=smt_ms, wall=time.time() - t0, rules=rules, ufs=ufs,
                 extra_seeds=[s for s, _ in extra_runs])
+
+
+ALGO_FILES = ["bfs.rs", "dfs.rs", "pfs.rs", "order.rs", "path.rs", "method.rs"]
+
+
+def scan_c20():
+    """C20 (iii): the algorithm files create no adjacency guard at all, hand only owned edges to the user's
+    closure (`.exec(&edge)`), and the iterator structs of node/mod.rs store no guard -- so no guard can be
+    live while user code runs inside a traversal or an edge loop."""
+    obls, report = [], []
+    for fl, info in gen.FLAVOURS.items():
+        d = os.path.join(REPO, "src", info["dir"], "node")
+        for af in ALGO_FILES:
+            p = os.path.join(d, "algo", af)
+            oid = "scan/%s/algo/%s" % (fl, af)
+            try:
+                src = open(p).read()
+            except OSError as e:
+                obls.append(dict(id=oid, flavour=fl, ok=False, why="file missing: %s" % e))
+                continue
+            m = mask(src)
+            chains = [src.count("\n", 0, mm.start()) + 1 for mm in gen.CHAIN_RE.finditer(m)]
+            raw = [src.count("\n", 0, mm.start()) + 1 for mm in re.finditer(r"\.\s*inner\b|\bborrow(_mut)?\s*\(|\.\s*(read|write)\s*\(\s*\)", m)]
+            execs = re.findall(r"\.\s*exec\s*\(([^)]*)\)", m)
+            bad_exec = [a for a in execs if a.strip() not in ("&edge", "e")]
+            ok = not chains and not raw and not bad_exec
+            why = "" if ok else "adjacency guard / lock access at lines %s; exec arguments %s" % (sorted(set(chains + raw)), bad_exec)
+            obls.append(dict(id=oid, flavour=fl, ok=ok, why=why))
+        # iterator structs must not hold a guard
+        p = os.path.join(d, "mod.rs")
+        src = open(p).read()
+        m = mask(src)
+        for st in (["IterOut", "IterIn"] if info["directed"] else ["NodeIterator"]):
+            oid = "scan/%s/node/mod.rs/struct %s" % (fl, st)
+            mm = re.search(r"pub\s+struct\s+%s\b[^{;]*\{" % st, m)
+            if not mm:
+                obls.append(dict(id=oid, flavour=fl, ok=False, why="struct %s not found" % st))
+                continue
+            close = gen.match_close(m, mm.end() - 1)
+            fields = gen.norm_ws(src[mm.end():close])
+            ok = not re.search(r"\bRef(Mut)?\b|Guard\b|RefCell|RwLock|Mutex", fields)
+            obls.append(dict(id=oid, flavour=fl, ok=ok, why="" if ok else "iterator struct stores a guard or lock: { %s }" % fields))
+            report.append("%s fields: { %s }" % (oid, fields))
+    return dict(obligations=obls, report=report)
+
+
+def twin_table(results):
+    """C15: plain function vs its sync twin: same contract object (same template block); identical text
+    after the rewrite rules, or different text verified against the same contract."""
+    rows = []
+    pairs = {"dg": "sdg", "ug": "sug"}
+    by = {}
+    for (uname, fl), u in results.items():
+        if u.get("error"):
+            continue
+        for f in u["gen"].fns:
+            txt = "\n".join(u["gen"].lines[f["gen_start"]:f["gen_end"]])
+            by[(uname, fl, f["id"])] = (gen.norm_ws(txt), u["obligations"].get(f["id"], {}).get("success"))
+    for (uname, fl, fid), (txt, ok) in sorted(by.items()):
+        if fl in pairs:
+            t = by.get((uname, pairs[fl], fid))
+            if t is None:
+                rows.append(dict(function="%s/%s" % (uname, fid), plain=fl, sync=pairs[fl], status="no twin under contract"))
+            else:
+                rows.append(dict(function="%s/%s" % (uname, fid), plain=fl, sync=pairs[fl],
+                                 same_contract=True, identical_dialect_text=(t[0] == txt), both_discharged=bool(ok and t[1])))
+    return rows
 
 
 def write_replay(prop, v):
@@ -370,7 +460,8 @@ def evidence(dec, level_other=False):
             "back_end": "Verus 0.2026.09.13.671956e / Z3 (bundled)",
             "extra_seeds": dec["extra_seeds"],
             "undecided": dec["undecided"],
-            "samples": dec["samples"],
+            "samples": dec["samples"] or [{"note": "no extracted function in this run"}],
+            **dec.get("extra", {}),
             "exhaustive": False,
         },
         "assumptions": trusted + ["clauses of the property not decided by this check: " + "; ".join(notdec) if notdec else "all clauses listed in DESIGN §5 for this property are covered by obligations"],
